@@ -126,7 +126,10 @@ def check(ck, F, rule, prefixes, floor):
         if fn is None or "mir" not in fn:
             continue
         cur = mustpass_callees(fn)
-        if cur is None or flow.calls_new_function(F, fn):
+        if cur is None:
+            continue
+        if flow.calls_new_function(F, fn):
+            ck.ok(rule, fid, "not compared: the function now calls a helper that did not exist on the reference tree", nontrivial=False)
             continue
         b = Body(fn)
         present = {short(callee(t) or "") for _, t in b.calls()}
